@@ -86,6 +86,7 @@ type CropOpt struct {
 	Followers   int // further random annual crops after the target crop
 	AfterLey    string // "" | "GR" | "AA": a ley (one rotation line of a permanent crop) is grown before the target crop
 	EarlyCut    bool   // the target crop is cut green, long before it ripens
+	SunOutage   bool   // weather with a sunshine column and two-/three-day outages of sunshine and radiation in the growing season
 }
 
 // GenCrop draws a project whose first grown crop is o.Set.
@@ -222,6 +223,9 @@ func GenCrop(r *vh.Rng, name string, o CropOpt) *Project {
 		c.NoiseT = r.Uni(3, 7)
 	}
 	p.WeatherSeed = r.U64()
+	if o.SunOutage {
+		p.SunOutage = 2
+	}
 	p.GenWeather()
 	// ---- automatic harvest (crop.go:182-204): AutoHarvest with a generated automan table
 	if o.AutoHarvest {
